@@ -221,3 +221,28 @@ theorem Chunked.silent {ε} (t : Tier) (now : Nat) : SilentHandler (Chunked.hand
     all_goals exact hp _ _
 
 end Rend
+
+namespace Rend
+
+/-- Whatever the runner computes — with any fault plan, from any state — is a run in the sense
+    of `Runs`: every "for all runs" theorem applies to what the driver executes. -/
+theorem Prog.runSt_runs {ε α : Type} (now : Nat) (fault : Option Fault) (p : Prog ε α) :
+    ∀ s : RunSt, Runs p (p.runSt now fault s).1 (p.runSt now fault s).2.1 := by
+  induction p with
+  | ret a => intro s; exact Runs.ret a
+  | call t r k ih =>
+    intro s
+    simp only [Prog.runSt]
+    exact Runs.call t r k _ _ _ (ih _ _)
+  | draw k ih =>
+    intro s
+    simp only [Prog.runSt]
+    cases h : s.toks with
+    | nil => exact Runs.draw k _ _ _ (ih _ _)
+    | cons x xs => exact Runs.draw k _ _ _ (ih _ _)
+  | emit e p ih =>
+    intro s
+    simp only [Prog.runSt]
+    exact Runs.emit e p _ _ (ih s)
+
+end Rend
